@@ -27,7 +27,7 @@ RULE = ('A case is one seeded write sequence (1..600 unique payloads over 1..200
         'consecutive attempts. Indices are capped at 48 per kind for long sequences (sampled evenly). '
         'evaluations = (sequence, fault plan) executions. A sub-case is non-trivial when at least one injected '
         'fault fired or a prune closed a handle that was later re-opened in append mode; distinct = distinct '
-        '(open/close/fault event trace) digests among those. 30% of the cases additionally split a seeded tagged BAM (1..14 cells, some reads without the tag) '
+        '(open/close/fault event trace) digests among those. 30% of the cases additionally split a seeded tagged BAM (1..14 cells, some reads without the tag; string values, values colliding after file-name clean-up, or integer values 0..n-1) '
         'with bamSplitByTag for max_handles in {1, cells-1, cells, cells+1, random, 400}: every cell file must exist and hold exactly its reads in input order.')
 ASSUMPTIONS = [
     'open() failures are injected at the module seam handlelimiter.gzip.open / handlelimiter.open; write()/close() I/O errors are outside the statement and not injected',
@@ -38,7 +38,8 @@ COMPONENTS = {
     'real': ['bamSplitByTag __main__ driver loop + split_bam_by_tag (re-executed with runpy in a forked child, real BAM files in scratch)', 'singlecellmultiomics.pyutils.handlelimiter.HandleLimiter', 'singlecellmultiomics.fastqProcessing.fastqHandle.FastqHandle(single_cell=True)', 'gzip.GzipFile'],
     'stub': ['(fidelity cross-check of SimFS: 4% of the cases also run on real gzip files under a real RLIMIT_NOFILE in a forked child)', 'SimPool for the index step of bamSplitByTag (multiprocessing.Pool rebound in the child)', 'SimFS (handlelimiter.gzip / handlelimiter.open): in-memory files, fd budget, transient/permanent open faults', 'SimClock (handlelimiter.time)'],
 }
-REQUIRED_PROBES = ['real_fd_limit_run', 'stale_file_present', 'split_colliding_tag_values', 'split_limit_below_cell_count', 'emfile_recovery', 'prune_closed_then_reopened', 'transient_fault_fired', 'permanent_fault_fired', 'write_raised_legitimately']
+ISOLATE = True      # every case runs in a forked child of the worker: no repository state travels between cases
+REQUIRED_PROBES = ['split_integer_tag_values', 'real_fd_limit_run', 'stale_file_present', 'split_colliding_tag_values', 'split_limit_below_cell_count', 'emfile_recovery', 'prune_closed_then_reopened', 'transient_fault_fired', 'permanent_fault_fired', 'write_raised_legitimately']
 EXHAUSTIVE_NOTE = 'fault plans are enumerated per sampled write sequence (capped at 48 indices per kind); write sequences are sampled'
 ERRNOS = [errno.EMFILE, errno.ENFILE, errno.EIO]
 
@@ -124,6 +125,8 @@ def generate(seed, tier):
         collide = w.random() < 0.35
         limits = sorted({1, ncell, ncell + 1, max(1, ncell - 1), w.randint(1, ncell + 1), 400})
         case['split'] = {'cells': ncell, 'reads': reads, 'max_handles': limits, 'collide': collide}
+        if not collide and w.random() < 0.35:
+            case['split']['tagtype'] = 'int'      # integer-typed tag (cluster / plate number): values 0..ncell-1, file name = the number
     return case
 
 
@@ -475,6 +478,8 @@ def run_real_fd(case, log, probes):
 
 def _tagvalue(sp, cell, i):
     """raw tag value; with 'collide' several raw spellings clean up to the same file name LIB_<cell>"""
+    if sp.get('tagtype') == 'int':
+        return int(cell)
     if not sp.get('collide'):
         return f'LIB_{cell}'
     return [f'LIB_{cell}', f'LIB {cell}', f'LIB_{cell}*', f' LIB_{cell}'][(i + cell) % 4]
@@ -507,7 +512,9 @@ def run_split(case, log, probes):
         want = {}
         for cell, i, tagged in sp['reads']:
             if tagged:
-                want.setdefault(f'LIB_{cell}', []).append(f'q{i}')     # the cleaned-up name; colliding raw values share the file
+                want.setdefault(str(cell) if sp.get('tagtype') == 'int' else f'LIB_{cell}', []).append(f'q{i}')     # the cleaned-up name; colliding raw values share the file
+        if sp.get('tagtype') == 'int':
+            probes['split_integer_tag_values'] = probes.get('split_integer_tag_values', 0) + 1
         if sp.get('collide'):
             probes['split_colliding_tag_values'] = probes.get('split_colliding_tag_values', 0) + 1
         for k in sp['max_handles']:
